@@ -597,6 +597,34 @@ pub fn configs(prop: HProp, tier: Tier) -> Vec<ChainCfg> {
             }
         }
     }
+    // the head call has less than a second (800 ms, 1 ms) or exactly one second left when it is
+    // abandoned: it is cancelled down the chain like any other (seeded change C04j sent no Cancel
+    // for a call with "0 whole seconds" left)
+    if prop == HProp::C04 {
+        for depth in 1..=3usize {
+            for r_ns in [800_000_000u64, 1_000_000, 1_000_000_000] {
+                for hops in [vec![HopKind::Mem; depth], vec![HopKind::Json; depth]] {
+                    if depth == 3 && hops[0] != HopKind::Mem && tier == Tier::Quick {
+                        continue;
+                    }
+                    out.push(ChainCfg {
+                        hops,
+                        r_ns,
+                        tau_ms: vec![0; depth],
+                        regime: Regime::NoSubscriber,
+                        last_finishes: false,
+                        abandon_after: Some(2),
+                        alphabet: H_ABANDON | H_FINISH,
+                        own_clients: false,
+                        client_mif: 0,
+                        zero_trace_id: false,
+                        head_untraced: false,
+                        head_unsampled: false,
+                    });
+                }
+            }
+        }
+    }
     // every handle owned by the future that uses it: an abandoned call takes the last handle of
     // its client with it, and the cancellation must still go out while that dispatch shuts down
     // (seeded changes C03c/C04c)
